@@ -304,6 +304,24 @@ def run(chk):
                 if got != want:
                     chk.violation('impl-vs-spec', {'parser': P.__name__, 'expr': expr}, {'impl': repr(got)[:200], 'libxml2': repr(want)[:200]})
             chk.nontrivial.add('lang:' + expr)
+    # ---- id() of the XPath 1.0 core library against libxml2: a string with several IDs, a node-set of references
+    lroot4 = LE.fromstring('<r xml:id="i1" ref="i2 i3"><x xml:id="i2">1</x><y><z xml:id="i3"/></y><w ref="i1"/></r>')
+    for expr in ("id('i1')", "id('i2 i3')", "id('i3 i1')", "id('zz')", "id(//@ref)", "id(/r/w/@ref)", "id('i2')/text()", "count(id('i1 i2 i3'))", "id(12)", "id(true())", "id('')",
+                 "id('i1')/x", "id('i2')//text()", "(id('i1'))/y/z", "count(id('i1')/*)", "(//x)/text()", "(//x | //y)/..", "count((//x)//text())", "string(id('i1')/x)"):
+        want = lroot4.xpath(expr)
+        want = [getattr(x, 'tag', x) for x in want] if isinstance(want, list) else want
+        chk.evaluations += 1
+        chk.count('id-libxml2')
+        try:
+            got = select(lroot4, expr, parser=XPath1Parser)
+            got = [getattr(x, 'tag', x) for x in got] if isinstance(got, list) else got
+        except ElementPathError as ex:
+            got = 'error ' + str(ex.code)
+        except Exception as ex:
+            got = 'exception ' + type(ex).__name__
+        if got != want:
+            chk.violation('impl-vs-spec', {'parser': 'XPath1Parser', 'expr': expr}, {'impl': repr(got)[:200], 'libxml2': repr(want)[:200]})
+        chk.nontrivial.add('id:' + expr)
     # round trip codepoints-to-string(string-to-codepoints(s)) = s and string-length in code points
     for _ in range(100 if quick else 5000):
         s = rstr(8, 'ab\U0001F600é́\t')
